@@ -372,3 +372,16 @@ class HeaderTypes:
                 ],
             )
             assert self.DynamicEntry.size == 8
+
+        # All fields are stored in the byte order announced in e_ident:
+        order = "<" if endianness == Endianness.LITTLE else ">"
+        for header_type in (
+            self.ElfHeader,
+            self.SectionHeader,
+            self.ProgramHeader,
+            self.SymbolTableEntry,
+            self.RelocationTableEntry,
+            self.DynamicEntry,
+        ):
+            for field in header_type._fields:
+                field.set_byte_order(order)
